@@ -137,6 +137,37 @@ func c04Pure(r *Run) {
 		kvs := internal.ToKeyValue(md)
 		r.Case("tokv", in, kvGrouped(kvs))
 		r.Case("mdrt", in, implToMetadata(kvs))
+		lmd, collide := metadata.MD{}, false
+		for k, v := range md {
+			lk := strings.ToLower(k)
+			if _, dup := lmd[lk]; dup {
+				collide = true
+			}
+			lmd[lk] = v
+		}
+		if i%3 == 0 && !collide {
+			// grpc's outgoing context hands the metadata over with lower-cased keys
+			in := mdInput(lmd)
+			// the request header list (client.go headersFromContext, model Goat.ReqHeaders): the same
+			// metadata part whether or not the context has a deadline, and then the one timeout entry
+			ctx := metadata.NewOutgoingContext(context.Background(), md)
+			var cancel context.CancelFunc = func() {}
+			withDeadline := i%2 == 0
+			if withDeadline {
+				ctx, cancel = context.WithTimeout(ctx, time.Duration(1+rng.Intn(3600))*time.Second)
+			}
+			hk := goat.VerifHeadersFromContext(ctx)
+			cancel()
+			nT := 0
+			if withDeadline && len(hk) > 0 && hk[len(hk)-1].Key == "GRPC-Timeout" {
+				hk, nT = hk[:len(hk)-1], 1
+			}
+			if (nT == 1) != withDeadline {
+				r.Violate("reqhdrs.timeout", "ops", "the request header list does not end with exactly one GRPC-Timeout entry iff the context has a deadline", in, kvInput(hk), withDeadline)
+			}
+			r.Case("tokv", in, kvGrouped(hk))
+			r.Count(fmt.Sprintf("reqhdrs.deadline=%v", withDeadline))
+		}
 		r.CountN("pure.keys", len(md))
 		for k := range md {
 			if strings.HasSuffix(strings.ToLower(k), "-bin") {
